@@ -52,6 +52,27 @@ def _worker(ys):
                             lst = bad.setdefault("dates held as %s" % tag, [])
                             if len(lst) < 200:
                                 lst.append((days[a].isoformat(), days[b].isoformat(), got, exp))
+            # far apart: the ends of the supported range, century leap / non-leap days, the epoch, against the year's own ends
+            far = [datetime.date(1601, 1, 1), datetime.date(1700, 3, 1), datetime.date(1900, 2, 28), datetime.date(1969, 12, 31),
+                   datetime.date(1970, 1, 1), datetime.date(2000, 2, 29), datetime.date(2400, 2, 29), datetime.date(3000, 7, 4),
+                   datetime.date(4093, 12, 31)]
+            fvals = []
+            for d in far:
+                ymd = {"y": d.year, "m": d.month, "d": d.day}
+                r = ymd if conv is None else call(tu, conv, ymd)
+                fvals.append({"typ": E[tag], mem: r} if not isinstance(r, dict) else {"typ": E[tag], **{mem + "." + k: v for k, v in r.items()}})
+            own = [(days[0], vals[0]), (days[len(days) // 2 - 1], vals[len(days) // 2 - 1])]
+            pairs = [(da, va, db, vb) for (da, va) in own for (db, vb) in zip(far, fvals)]
+            pairs += [(far[i_], fvals[i_], far[j_], fvals[j_]) for i_ in range(len(far)) for j_ in range(len(far))] if y == ys[0] else []
+            for da, va, db, vb in pairs:
+                for (d1, v1, d2, v2) in ((da, va, db, vb), (db, vb, da, va)):
+                    n += 1
+                    got = call(tu, "dt_dcmp", dict(v1), dict(v2))
+                    exp = _sgn((d1 - d2).days)
+                    if got != exp:
+                        lst = bad.setdefault("dates held as %s" % tag, [])
+                        if len(lst) < 200:
+                            lst.append((d1.isoformat(), d2.isoformat(), got, exp))
         # date-times and epoch values
         times = [(0, 0, 0), (0, 0, 1), (12, 0, 0), (23, 59, 59)]
         pts = [datetime.datetime(y, m, dd, *t) for (m, dd) in ((1, 1), (6, 30), (12, 31)) for t in times]
@@ -60,6 +81,9 @@ def _worker(ys):
         # both sides of the epoch, too: instants before 1970 are negative numbers
         pts += [datetime.datetime(1969, 12, 31, 23, 58, 20), datetime.datetime(1969, 12, 31, 23, 59, 59), datetime.datetime(1970, 1, 1, 0, 0, 0),
                 datetime.datetime(1970, 1, 1, 0, 1, 40)]
+        # far apart: beyond 32-bit second counts on both sides
+        pts += [datetime.datetime(1601, 1, 1, 0, 0, 0), datetime.datetime(1901, 12, 13, 20, 45, 52), datetime.datetime(2038, 1, 19, 3, 14, 8),
+                datetime.datetime(2106, 2, 7, 6, 28, 16), datetime.datetime(4093, 12, 31, 23, 59, 59)]
         recs = [{"typ": E["DT_YMD"], "sandwich": 1, "d.typ": E["DT_YMD"], "d.ymd.y": p.year, "d.ymd.m": p.month, "d.ymd.d": p.day,
                  "t.typ": E["DT_HMS"], "t.hms.h": p.hour, "t.hms.m": p.minute, "t.hms.s": p.second, "t.hms.ns": 0} for p in pts]
         ep = [int((p - datetime.datetime(1970, 1, 1)).total_seconds()) for p in pts]
